@@ -139,113 +139,323 @@ def clamp_check(tree):
     return rows, None
 
 
+def _res_dispatch(n):
+    """match E { Ok(x) => A, Err(e) => B } -> (scrutinee, ok-name, ok-body, err-name, err-body) or None"""
+    n = strip(n)
+    if n.k != "match" or len(n["arms"]) != 2:
+        return None
+    pats = {up(a["pat"]).split("(")[0]: a for a in n["arms"]}
+    if set(pats) != {"Ok", "Err"} or any(a.get("guard") is not None for a in n["arms"]):
+        return None
+    return (n["scrut"], up(pats["Ok"]["pat"])[3:-1], pats["Ok"]["body"], up(pats["Err"]["pat"])[4:-1], pats["Err"]["body"])
+
+
+def _tail_of(b):
+    b = strip(b)
+    while b.k == "block":
+        if not b["stmts"] or b["stmts"][-1].k != "expr_stmt" or b["stmts"][-1].get("semi"):
+            return None
+        b = strip(b["stmts"][-1]["e"])
+    return b
+
+
 def ob_fileview_seek(ctx, res):
-    """C18-B1..3 + C18-S1"""
-    fn = ctx.ast.fn(FV, "seek", impl="as Seek")
-    ms = [n for n in walk_no_nested_fn(fn.body) if n.k == "match" and up(strip(n["scrut"])) == "pos"]
+    """C18-B1..3 + C18-S1: per SeekFrom arm, the absolute position handed to the file is decided (R-EQUIV) against the isolated-range semantics"""
+    from ..rules import equiv as EQ
+    from ..astq import upn, _tnorm
+    fn = ctx.ast.fn(FV, "seek", impl="as Seek", inline=True)
+    ms = [n for n in walk_no_nested_fn(fn.body) if n.k == "match" and up(strip(n["scrut"])) == fn.params[1][0]]
     if len(ms) != 1 or len(ms[0]["arms"]) != 3:
-        res.fail("fvSeek/arms", fn, "expected the three SeekFrom arms")
+        res.undecided("fvSeek/arms", fn, "expected one match over the three SeekFrom arms")
         return
-    epilogues = []
+    rec = [c for c in calls(fn.body, method="seek") if up(strip(c["recv"])) == "self"]
+    if rec:
+        res.fail("fvSeek/recursion", rec[0], "FileView::seek calls itself (`%s`) without having changed the state that led there: when the position is unknown (after a failed "
+                                             "read or seek) the call takes the same branch again - unbounded recursion; the position must be asked of the underlying file" % up(rec[0]))
+        return
+    refs = {
+        "Start": (lambda e: min(e["E"], e["S"] + e["P"]), lambda e: e["P"] >= 0),
+        "End": (lambda e: min(e["E"], max(e["S"], e["E"] + e["P"])), lambda e: True),
+        "Current": (lambda e: min(e["E"], max(e["S"], e["C"] + e["P"])), lambda e: e["S"] <= e["C"] <= e["E"]),
+    }
     for arm in ms[0]["arms"]:
         kind = re.sub(r"\(.*", "", up(arm["pat"])).split("::")[-1]
+        pm = re.fullmatch(r".*\((\w+)\)", up(arm["pat"]))
+        if kind not in refs or not pm:
+            res.undecided("fvSeek/%s/site" % kind, arm, "arm pattern `%s` not recognised" % up(arm["pat"]))
+            continue
+        payload = pm.group(1)
         sk = [c for c in calls(arm["body"], method="seek") if up(strip(c["recv"])) == "self.file"]
-        if len(sk) != 1:
-            res.fail("fvSeek/%s/site" % kind, arm, "expected one seek of the underlying file")
+        pos_sk = []
+        for c in sk:
+            a = _tnorm(fn, strip(c["args"][0]))
+            if a.k == "call" and up(a["func"]).endswith("SeekFrom::Start") and len(a["args"]) == 1:
+                pos_sk.append((c, a["args"][0]))
+            elif a.k == "call" and up(a["func"]).endswith("SeekFrom::Current") and up(a["args"][0]) == "0":
+                continue        # position query, does not move the file
+            else:
+                res.fail("fvSeek/%s/absolute" % kind, c, "the underlying file must be positioned absolutely (SeekFrom::Start(x)); got `%s`" % up(a))
+                pos_sk = None
+                break
+        if pos_sk is None:
             continue
-        a = strip(sk[0]["args"][0])
-        if a.k == "path":
-            b = binding_before(fn, a["path"], sk[0])
-            a = strip(b[1]["init"]) if b is not None and b[0] == "let" else a
-        if not (a.k == "call" and up(a["func"]).endswith("SeekFrom::Start") and len(a["args"]) == 1):
-            res.fail("fvSeek/%s/absolute" % kind, sk[0], "the underlying file must be positioned absolutely (SeekFrom::Start(x)); got `%s`" % up(a))
+        if len(pos_sk) != 1:
+            if not pos_sk:
+                res.fail("fvSeek/%s/site" % kind, arm, "SeekFrom::%s never positions the underlying file" % kind)
+            else:
+                res.undecided("fvSeek/%s/site" % kind, arm, "%d positioning seeks in one arm" % len(pos_sk))
             continue
-        try:
-            tree = _resolve(fn, a["args"][0])
-            rows, cex = clamp_check(tree)
-        except Refuse as e:
-            res.fail("fvSeek/%s/idiom" % kind, sk[0], "clamp expression not analysable: %s" % e)
+        c, x = pos_sk[0]
+        ref, pre0 = refs[kind]
+        roles = {"S": r"self\.start", "E": r"self\.end", "P": re.escape(payload)}
+        if kind == "Current":
+            roles["C"] = r"(?!%s$)[a-z_]\w*" % re.escape(payload)
+        pre = lambda e, pre0=pre0: 0 <= e["S"] <= e["E"] and pre0(e)
+        q = EQ.equiv(fn, x, roles, ref, domain=range(-3, 4), pre=pre)
+        if q[0] == "differs":
+            e, got, want = q[1], q[2], q[3]
+            inb = e["S"] <= got <= e["E"]
+            res.fail("fvSeek/%s/clamp" % kind, c,
+                     "SeekFrom::%s(%s): the file is positioned at %s, the isolated range [start=%s, end=%s)%s requires %s%s" % (
+                         kind, e["P"], got, e["S"], e["E"], " at position %s" % e["C"] if "C" in e else "", want,
+                         "" if inb else " - outside the view (a view with start > 0 then fails its own `new_pos >= self.start` assertion)"))
             continue
-        if cex:
-            res.fail("fvSeek/%s/clamp" % kind, sk[0],
-                     "SeekFrom::%s: the position handed to the file is not clamped to the view: %s (a view with start > 0 then fails its own "
-                     "`new_pos >= self.start` assertion instead of behaving like the isolated range)" % (kind, cex))
+        if q[0] == "unknown":
+            res.undecided("fvSeek/%s/clamp" % kind, c, "position expression not decided (%s)" % q[1])
         else:
-            res.ok(sk[0], "SeekFrom::%s: `%s` is within [self.start, self.end] for all %d order types" % (kind, up(a["args"][0])[:60], rows))
-        m2 = sk[0].parent
+            res.ok(c, "SeekFrom::%s: `%s` == the isolated range's position clamped to [start, end] on %d assignments" % (kind, up(x)[:60], q[1]))
+        # epilogue: Ok(p) -> current = Some(p), return p - start; Err -> current = None
+        m2 = c.parent
         while m2 is not None and m2.k != "match":
             m2 = m2.parent
-        epilogues.append((kind, up(m2) if m2 is not None else ""))
-    if len(epilogues) == 3:
-        norm = [re.sub(r"^match self\.file\.seek\([^{]*\) \{", "match SEEK {", e) for _, e in epilogues]
-        if len(set(norm)) != 1:
-            res.fail("fvSeek/epilogue", fn, "the three arms handle the seek result differently")
-        else:
-            e = norm[0]
-            if "self.current = Some(new_pos)" not in e or "new_pos - self.start" not in e or "self.current = None" not in e:
-                res.fail("fvSeek/epilogue-form", fn, "on success current must be updated and the position returned relative to start; on error current is unknown")
-            else:
-                res.ok(fn, "all arms: Ok -> current = Some(pos), return pos - start; Err -> current = None")
+        d = _res_dispatch(m2) if m2 is not None and any(y is c for y in walk_no_nested_fn(strip(m2["scrut"]))) else None
+        if d is None:
+            res.undecided("fvSeek/%s/epilogue" % kind, c, "the seek result is not consumed by a `match .. { Ok(p) => .., Err(e) => .. }`")
+            continue
+        _, okn, okb, ern, erb = d
+        okas = [y for y in walk_no_nested_fn(okb) if y.k == "assign" and up(strip(y["l"])) == "self.current"]
+        eras = [y for y in walk_no_nested_fn(erb) if y.k == "assign" and up(strip(y["l"])) == "self.current"]
+        t_ok, t_er = _tail_of(okb), _tail_of(erb)
+        if len(okas) != 1 or up(strip(okas[0]["r"])) != "Some(%s)" % okn or okas[0].order > min([y.order for y in walk_no_nested_fn(okb) if y.k == "let"] or [10 ** 9]):
+            res.fail("fvSeek/%s/epilogue-form" % kind, m2, "on success current must become Some(<position reported by the file>)")
+            continue
+        if t_ok is None or upn(fn, t_ok) != "Ok(%s - self.start)" % okn:
+            res.fail("fvSeek/%s/epilogue-form" % kind, m2, "on success the position must be returned relative to the view start; returns `%s`" % (upn(fn, t_ok) if t_ok is not None else "?"))
+            continue
+        if len(eras) != 1 or up(strip(eras[0]["r"])) != "None" or t_er is None or up(t_er) != "Err(%s)" % ern:
+            res.fail("fvSeek/%s/epilogue-form" % kind, m2, "on error the position is unknown (current = None) and the error is returned")
+            continue
+        res.ok(m2, "SeekFrom::%s: Ok(p) -> current = Some(p), return p - start; Err -> current = None" % kind)
 
 
 def ob_fileview_read(ctx, res):
     """C18-B4"""
-    fn = ctx.ast.fn(FV, "read", impl="as Read")
-    t = up(fn.body)
-    m = re.search(r"let (\w+) = (\w+)\.len\(\)\.min\(\(self\.end - (\w+)\) as usize\); let \2 = &mut \2\[\.\.\1\];", t)
-    if not m:
-        res.fail("fvRead/truncate", fn, "the caller's buffer must be truncated to end - current before reading")
-        return
-    cur = m.group(3)
+    from ..rules import equiv as EQ
+    from ..astq import upn
+    fn = ctx.ast.fn(FV, "read", impl="as Read", inline=True)
+    bufn = fn.params[1][0]
     rd = [c for c in calls(fn.body, method="read") if up(strip(c["recv"])) == "self.file"]
-    if len(rd) != 1 or up(strip(rd[0]["args"][0])) != m.group(2):
-        res.fail("fvRead/read", fn, "exactly the truncated buffer must be read from the file")
+    if len(rd) != 1:
+        res.undecided("fvRead/read", fn, "expected one read of the underlying file, found %d" % len(rd))
         return
-    if not re.search(r"Ok\((\w+)\) => \{self\.current = Some\(%s \+ \1 as u64\); Ok\(\1\);?\}" % cur, t) or "self.current = None" not in t:
-        res.fail("fvRead/advance", fn, "current must advance by the count actually read; on error it becomes unknown")
+    # the slice handed to the file: &mut buf[..n] with n == min(buf.len(), end - current)
+    a = strip(rd[0]["args"][0])
+    if a.k == "path":
+        b = binding_before(fn, a["path"], rd[0])
+        a = strip(b[1]["init"]) if b is not None and b[0] == "let" and b[1].get("init") is not None else a
+    while a.k == "ref":
+        a = strip(a["e"])
+    if not (a.k == "index" and strip(a["index"]).k == "range" and strip(a["index"]).get("from") is None and strip(a["index"]).get("to") is not None):
+        if a.k == "path" and a["path"] == bufn:
+            res.fail("fvRead/truncate", rd[0], "the caller's buffer is handed to the file untruncated: a read can run past the end of the view")
+        else:
+            res.undecided("fvRead/truncate", rd[0], "the buffer handed to the file is `%s`, not a `&mut buf[..n]` slice" % up(a))
         return
-    res.ok(fn, "read: buffer truncated to end - current; current += bytes read; Err -> current unknown")
-    new = ctx.ast.fn(FV, "new", impl="FileView")
-    tn = up(new.body)
-    if "let end = end.min(file_end);" not in tn or "file.seek(io::SeekFrom::Start(start))?" not in tn or "current: Some(start)" not in tn:
-        res.fail("fvRead/new", new, "new() must clamp end to the file length, position the file at start and record current = start")
+    n = strip(a["index"])["to"]
+    cur = [x for x in walk_no_nested_fn(fn.body) if x.k == "let" and x["pat"].k == "p_ident" and x.get("init") is not None and strip(x["init"]).k == "match"
+           and up(strip(strip(x["init"])["scrut"])) == "self.current"]
+    curn = cur[0]["pat"]["name"] if len(cur) == 1 else "current"
+    roles = {"L": r"\w+\.len\(\)", "E": r"self\.end", "C": re.escape(curn)}
+    from ..astq import _tnorm
+    nf = _tnorm(fn, strip(n))
+    # `buf.len()` is a method call: give it a leaf by substituting a path
+    def lenleaf(x):
+        if isinstance(x, Node) and x.k == "mcall" and x["method"] == "len" and not x["args"]:
+            return True
+        return False
+    from ..astq import _mknode
+    def sub(x):
+        if isinstance(x, list):
+            return [sub(y) for y in x]
+        if not isinstance(x, Node):
+            return x
+        if lenleaf(x):
+            return _mknode({"k": "path", "path": "BUFLEN"})
+        return _mknode({k: (sub(v) if isinstance(v, (Node, list)) else v) for k, v in x.items()})
+    q = EQ.equiv(None, sub(nf), {"L": "BUFLEN", "E": r"self\.end", "C": re.escape(curn)}, lambda e: min(e["L"], e["E"] - e["C"]), domain=range(0, 5), pre=lambda e: e["C"] <= e["E"])
+    if q[0] == "differs":
+        res.fail("fvRead/truncate", rd[0], "the caller's buffer must be truncated to min(len, end - current) before reading; `%s` gives %s, required %s, for %s" % (up(n), q[2], q[3], q[1]))
+        return
+    if q[0] == "unknown":
+        res.undecided("fvRead/truncate", rd[0], "truncation length not decided (%s)" % q[1])
+    d = None
+    m2 = rd[0].parent
+    while m2 is not None and m2.k != "match":
+        m2 = m2.parent
+    d = _res_dispatch(m2) if m2 is not None else None
+    if d is None:
+        res.undecided("fvRead/advance", rd[0], "the read result is not consumed by a `match .. { Ok(n) => .., Err(e) => .. }`")
+    else:
+        _, okn, okb, ern, erb = d
+        okas = [y for y in walk_no_nested_fn(okb) if y.k == "assign" and up(strip(y["l"])) == "self.current"]
+        eras = [y for y in walk_no_nested_fn(erb) if y.k == "assign" and up(strip(y["l"])) == "self.current"]
+        want = sorted([curn, "%s as u64" % okn])
+        if len(okas) != 1 or upn(fn, okas[0]["r"]) not in ("Some(%s + %s)" % tuple(want), "Some(%s + %s)" % tuple(sorted([curn, okn]))) or up(_tail_of(okb) or okb) != "Ok(%s)" % okn:
+            res.fail("fvRead/advance", m2, "current must advance by the count actually read and that count be returned; got `%s`" % up(okb)[:120])
+            return
+        if len(eras) != 1 or up(strip(eras[0]["r"])) != "None":
+            res.fail("fvRead/advance", m2, "after a failed read the position is unknown (current = None)")
+            return
+        if q[0] == "equal":
+            res.ok(fn, "read: buffer truncated to min(len, end - current); current += bytes read; Err -> current unknown")
+    new = ctx.ast.fn(FV, "new", impl="FileView", inline=True)
+    lit = [x for x in walk_no_nested_fn(new.body) if x.k == "struct" and x["path"].endswith("FileView")]
+    sks = [c for c in calls(new.body, method="seek")]
+    if len(lit) != 1:
+        res.undecided("fvRead/new", new, "expected one FileView literal")
+        return
+    f = {x["name"]: (upn(new, x["e"]) if x.get("e") is not None and not x.get("shorthand") else x["name"]) for x in lit[0]["fields"]}
+    pn = [p[0] for p in new.params]
+    endq = None
+    for x in lit[0]["fields"]:
+        if x["name"] == "end":
+            e = x["e"] if x.get("e") is not None and not x.get("shorthand") else None
+            if e is None or (strip(e).k == "path" and strip(e)["path"] == "end"):
+                b = binding_before(new, "end", lit[0])
+                if b is not None and b[0] == "param":
+                    res.fail("fvRead/new", lit[0], "new() stores the requested end unclamped: a view whose end lies past the end of the file reports positions (SeekFrom::End) "
+                                                   "beyond the data; end must be min(end, file length)")
+                    return
+                e = b[1]["init"] if b is not None and b[0] == "let" else None
+            if e is not None:
+                fe = [c for c in sks if "SeekFrom::End(0)" in up(c)]
+                fen = None
+                for c in fe:
+                    st = stmt_of(c)
+                    if st is not None and st.k == "let" and st["pat"].k == "p_ident":
+                        fen = st["pat"]["name"]
+                endq = EQ.equiv(new, e, {"E": re.escape(pn[2]), "F": re.escape(fen or "file_end")}, lambda v: min(v["E"], v["F"]), domain=range(0, 4)) if fen else ("unknown", "file length not read")
+    if endq is None or endq[0] == "unknown":
+        res.undecided("fvRead/new", new, "view end not decided (%s)" % (endq[1] if endq else "no end field"))
+    elif endq[0] == "differs":
+        res.fail("fvRead/new", lit[0], "new() must clamp end to the file length; got %s, required %s for %s" % (endq[2], endq[3], endq[1]))
+        return
+    if not any(up(strip(c["args"][0])).endswith("SeekFrom::Start(%s)" % pn[1]) for c in sks) or f.get("current") != "Some(%s)" % pn[1] or f.get("start") != pn[1]:
+        res.fail("fvRead/new", new, "new() must position the file at start and record start / current = Some(start)")
         return
     res.ok(new, "new: end clamped to the file length; file positioned at start; current = start")
 
 
 def ob_chunker(ctx, res):
-    """C18-F1"""
-    fn = ctx.ast.fn(FU, "split_file_into_chunks_by_size")
-    t = up(fn.body)
+    """C18-F1: the chunking loop's body is executed symbolically (R-SYMX) and its effect sequence / state update compared with the contiguity rule"""
+    from ..rules import symx, equiv as EQ
+    fn = ctx.ast.fn(FU, "split_file_into_chunks_by_size", inline=True)
     loops = [n for n in walk_no_nested_fn(fn.body) if n.k == "loop"]
     if len(loops) != 1:
-        res.fail("chunker/loop", fn, "expected one loop")
+        res.undecided("chunker/loop", fn, "expected one loop, found %d" % len(loops))
         return
-    lb = up(loops[0]["body"])
-    # the name of the local holding the post-line position is free; `chunk_end = <seek Current(0)>?` directly is the same thing
-    m = re.search(r"file_reader\.seek\(io::SeekFrom::Start\(chunk_end\)\)\?; ?file_reader\.read_line\(&mut String::new\(\)\)\?; ?"
-                  r"(?:let (\w+) = file_reader\.(?:seek\(io::SeekFrom::Current\(0\)\)|stream_position\(\))\?; ?chunk_end = \1;"
-                  r"|chunk_end = file_reader\.(?:seek\(io::SeekFrom::Current\(0\)\)|stream_position\(\))\?;) ?"
-                  r"chunk_vec\.push\(\(chunk_start, ?chunk_end\)\);", lb)
-    if not m:
-        res.fail("chunker/sequence", loops[0], "each chunk must end right after the line that contains the candidate end: seek to the candidate, read one line, take the position, push (start, position) - in that order")
+    sy = symx.run(fn, loops[0]["body"]["stmts"])
+    if sy.opaque():
+        res.undecided("chunker/shape", loops[0], "loop body has a statement the symbolic executor does not follow: `%s`" % sy.opaque()[0][1])
         return
-    pos = m.end()
-    if not re.search(r"\(chunk_start,chunk_end\) = \(chunk_end,chunk_end\.max\(chunk_start \+ chunk_size \+ chunk_size\)\);", lb[pos:]):
-        res.fail("chunker/next", loops[0], "the next chunk must start exactly where the previous one ended")
+    eff = [(k, t, n) for k, t, n in sy.effects]
+    # 1. seek(Start(E)) ; read_line ; P = position ; push((S, P))
+    def is_m(n, m):
+        x = strip(n)
+        while x.k == "try":
+            x = strip(x["e"])
+        return x if x.k == "mcall" and x["method"] == m else None
+    seq = []
+    for k, t, n in eff:
+        if k == "exit":
+            seq.append(("exit", n))
+            continue
+        for m in ("seek", "read_line", "stream_position", "push"):
+            x = is_m(n, m)
+            if x is not None:
+                seq.append((m, x, t))
+                break
+        else:
+            seq.append(("other", n, t))
+    kinds = [x[0] for x in seq]
+    if kinds != ["seek", "read_line", "seek", "push", "exit"] and kinds != ["seek", "read_line", "stream_position", "push", "exit"]:
+        res.fail("chunker/sequence", loops[0], "each chunk must end right after the line that contains the candidate end: seek to the candidate, read one line, take the position, "
+                                               "push (start, position), then test for the end - in that order; the body does: %s" % sy.show())
         return
-    if "chunk_end = chunk_end.min(file_size);" not in lb or not re.search(r"if chunk_start >= file_size \{break;?\}", lb):
-        res.fail("chunker/exit", loops[0], "candidate end must be clamped to the file size and the only exit is chunk_start >= file_size")
+    m0 = re.fullmatch(r"(?:io::|std::io::)?SeekFrom::Start\((\w+)\)", up(strip(seq[0][1]["args"][0])))
+    if not m0:
+        res.fail("chunker/sequence", loops[0], "the probe must be an absolute seek to the candidate end; got `%s`" % up(seq[0][1]))
         return
-    b0 = binding_before(fn, "chunk_start", loops[0])
-    if b0 is None or up(strip(b0[1]["init"])) != "0":
+    endn = m0.group(1)
+    if seq[2][0] == "seek" and not re.fullmatch(r"(?:io::|std::io::)?SeekFrom::Current\(0\)", up(strip(seq[2][1]["args"][0]))):
+        res.fail("chunker/sequence", loops[0], "after reading the line the position must be taken (seek(Current(0)) / stream_position); got `%s`" % up(seq[2][1]))
+        return
+    P = seq[2][2].split(" = ")[0]
+    recvs = {up(strip(seq[i][1]["recv"])) for i in (0, 1, 2)}
+    if len(recvs) != 1:
+        res.fail("chunker/sequence", loops[0], "probe, line read and position must use the same reader; got %s" % sorted(recvs))
+        return
+    pa = strip(seq[3][1]["args"][0])
+    if pa.k != "tuple" or len(pa["elems"]) != 2 or up(strip(pa["elems"][1])) != P or not re.fullmatch(r"\w+", up(strip(pa["elems"][0]))):
+        res.fail("chunker/push", loops[0], "the chunk pushed must be (chunk start, position after the line); got `%s`" % up(pa))
+        return
+    startn = up(strip(pa["elems"][0]))
+    # 2. state update
+    ns = sy.env.get(startn)
+    if ns is None or up(ns) != P:
+        res.fail("chunker/next", loops[0], "the next chunk must start exactly where the previous one ended (%s' = %s); got `%s`" % (startn, P, up(ns) if ns is not None else "unchanged"))
+        return
+    ne = sy.env.get(endn)
+    if ne is None:
+        res.fail("chunker/next", loops[0], "the candidate end is never advanced")
+        return
+    roles = {"P": re.escape(P), "S": re.escape(startn), "Z": r"chunk_size|\w*size\w*(?<!file_size)", "F": r"file_size|\w*len\w*"}
+    q = EQ.equiv(None, ne, roles, lambda e: min(e["F"], max(e["P"], e["S"] + 2 * e["Z"])), domain=range(0, 4))
+    if q[0] == "unknown":
+        res.undecided("chunker/candidate", loops[0], "next candidate end not decided (%s)" % q[1])
+    elif q[0] == "differs":
+        # the exact stride is a tuning choice; what the property needs is P <= candidate' <= file_size
+        q2 = EQ.equiv(None, _mk_between(ne, P), roles, lambda e: True, domain=range(0, 4), pre=lambda e: e["P"] <= e["F"])
+        if q2[0] != "equal":
+            res.fail("chunker/exit", loops[0], "the next candidate end must lie in [position, file size]; `%s` does not (%s)" % (up(ne), q2[1:] ))
+            return
+    # 3. exit
+    ex = seq[4][1]
+    qe = EQ.equiv(None, ex, roles, lambda e: e["P"] >= e["F"], domain=range(0, 4)) if ex is not None else ("unknown", "unconditional exit")
+    if qe[0] == "differs":
+        res.fail("chunker/exit", loops[0], "the only exit is `next chunk start >= file size`; condition `%s` gives %s for %s" % (up(ex), qe[2], qe[1]))
+        return
+    if qe[0] == "unknown":
+        res.undecided("chunker/exit", loops[0], "exit condition not decided (%s)" % qe[1])
+    b0 = binding_before(fn, startn, loops[0])
+    if b0 is None or b0[0] != "let" or up(strip(b0[1]["init"])) != "0":
         res.fail("chunker/first", fn, "the first chunk must start at offset 0")
         return
     brk = [n for n in walk_no_nested_fn(loops[0]["body"]) if n.k in ("break", "return")]
     if len(brk) != 1:
         res.fail("chunker/exits", loops[0], "exactly one exit expected")
         return
-    res.ok(loops[0], "chunks: first starts at 0; each ends at the position right after a full line read from the candidate end; next starts there; exit only at chunk_start >= file_size")
+    res.ok(loops[0], "chunks: first starts at 0; each ends at the position right after a full line read from the candidate end; next starts there; exit only at chunk_start >= file_size "
+                     "(symbolic effects: %s)" % "; ".join(sy.show()))
+
+
+def _mk_between(ne, P):
+    from ..astq import _mknode
+    p = _mknode({"k": "path", "path": P})
+    f = _mknode({"k": "path", "path": "file_size"})
+    a = _mknode({"k": "binary", "op": "<=", "l": p, "r": ne})
+    b = _mknode({"k": "binary", "op": "<=", "l": ne, "r": f})
+    return _mknode({"k": "binary", "op": "&&", "l": a, "r": b})
 
 
 def ob_views(ctx, res):
